@@ -30,11 +30,23 @@ class K:
     S = "ks"
     class Inner:
         D = 4
+class JL(list):
+    "a python list that also answers the stream operators natively (oracle side)"
+    def Select(self, f):
+        return JL(f(x) for x in self)
+    def Where(self, f):
+        return JL(x for x in self if f(x))
+    def SelectMany(self, f):
+        return JL(y for x in self for y in f(x))
+    def Count(self):
+        return len(self)
+    def First(self):
+        return self[0]
 def _jet(pt, eta):
-    return SimpleNamespace(pt=pt, eta=eta, tracks=[SimpleNamespace(pt=pt + 1), SimpleNamespace(pt=-pt)])
-DATA = [SimpleNamespace(x=2, y=-1, name="s'q", jets=[_jet(3, 1), _jet(0, -2)]),
-        SimpleNamespace(x=0, y=4, name="n", jets=[]),
-        SimpleNamespace(x=-7, y=7, name="", jets=[_jet(5, 5)])]
+    return SimpleNamespace(pt=pt, eta=eta, tracks=JL([SimpleNamespace(pt=pt + 1), SimpleNamespace(pt=-pt)]))
+DATA = [SimpleNamespace(x=2, y=-1, name="s'q", jets=JL([_jet(3, 1), _jet(0, -2)])),
+        SimpleNamespace(x=0, y=4, name="n", jets=JL([])),
+        SimpleNamespace(x=-7, y=7, name="", jets=JL([_jet(5, 5)]))]
 NATIVE = {}
 def _native(i, fn):
     out = []
